@@ -18,7 +18,8 @@ STUBS = ["Project._build_index yields the symbolic corpus; job objects for diff_
 ASSUMPTIONS = ["a key is 'constant' iff every selected job has it with the same JSON value (type-exact)"]
 
 MISSING = ("<missing>",)
-TA = [MISSING, None, False, True, 0, 1, 1.0, "a", [0], {"c": 0}, {"c": 1}, {}, [{"x": 1, "y": 2}], [{"y": 2, "x": 1}]]   # the last two: ONE JSON value written with two key orders
+TA = [MISSING, None, False, True, 0, 1, 1.0, "a", [0], {"c": 0}, {"c": 1}, {}, [{"x": 1, "y": 2}], [{"y": 2, "x": 1}],   # these two: ONE JSON value written with two key orders
+      {"0": "x", "1": 5}, [7, 8], [{"b": [1]}]]        # a mapping with digit-string keys next to lists (positional look-alikes); a mapping inside a list holding a list
 TD = TA[:11] + [{"c": {"d": 0, "e": 0}}, {"c": {"d": 1, "e": 1}}, {"c": {"d": 0, "e": 1, "f": {"g": 0, "h": 0}}}, {"c": {"d": 0, "e": 1, "f": {"g": 1, "h": 1}}}]  # diff_jobs domain: no empty mapping, deeper nesting
 TB = [MISSING, 0, 1]
 
@@ -57,11 +58,11 @@ def _schema_case(sps, sel, ec):
 def empty_vs_nonempty_mapping(ec, sel, *ia):
     """known-finding predicate: exclude_const, and among the selected jobs one has a = {} while another has a = {c: ..}"""
     chosen = [ia[i] for i in range(len(ia)) if sel >> i & 1]
-    return bool(ec) and any(x == 11 for x in chosen) and any(x in (9, 10) for x in chosen)
+    return bool(ec) and any(x == 11 for x in chosen) and any(x in (9, 10, 14) for x in chosen)
 
 
 def h_schema2(a0: int, b0: int, a1: int, b1: int, sel: int, ec: bool):
-    assert 0 <= a0 < 14 and 0 <= a1 < 14 and 0 <= b0 < 3 and 0 <= b1 < 3 and 0 <= sel < 4 and part_ok(a0)
+    assert 0 <= a0 < 17 and 0 <= a1 < 17 and 0 <= b0 < 3 and 0 <= b1 < 3 and 0 <= sel < 4 and part_ok(a0)
     assert kf_filter("C18.empty_vs_nonempty_mapping", empty_vs_nonempty_mapping(ec, sel, a0, a1))
     fresh_path()
     sps = [mksp(a0, b0), mksp(a1, b1)]
